@@ -11,10 +11,10 @@ from ..worlds import ImplWorld, RefWorld, facts_impl, facts_ref
 ID = 'C13'
 LEVEL = 'model_checking'
 RULE = ('every ordered selection of <= K of the binding operations {X = f(Y), Y = a, X = Y, Y = g(Z), Z = b} with one '
-        'assertz of p(X) / p(f(Y)) / p(_) / p(g(X,Y)) inserted at every position (variables bound before, after, through '
+        'assertz of p(X) / p(f(Y)) / p(_) / p(g(X,Y)) / p(g(Y,Y)) (one variable twice) inserted at every position (variables bound before, after, through '
         'a chain, inside a structure), the asserting clause continuing with true / a use p(W) of the fact / fail, run '
-        'to exhaustion or abandoned after its first answer; followed by every sequence of <= 2 later uses from {p(a), '
-        'p(b), p(f(b)), p(g(a,b)), one clause using the fact twice (p(A),p(B),A=a,B=b), two simultaneously suspended '
+        'to exhaustion or abandoned after its first answer; followed by every later use, alone and followed by each of 3 probing uses, from {p(a), '
+        'p(b), p(f(b)), p(g(a,b)), p(g(a,a)), one clause using the fact twice (p(A),p(B),A=a,B=b), two simultaneously suspended '
         'enumerations p(A) and p(B) bound differently}; through compiled clauses and through the Python API (nested '
         'unify generators + assert_fact). Every step is executed on the real engine and on the reference model (copy at '
         'assert, fresh variables per use) and the observations compared. states = distinct observation traces; '
@@ -24,9 +24,9 @@ ASSUMPTIONS = ['reference: RefProlog database (copy on assert with consistent re
 X, Y, Z, W = V('X'), V('Y'), V('Z'), V('W')
 a, b = A('a'), A('b')
 OPS = [(X, F('f', Y)), (Y, a), (X, Y), (Y, F('g', Z)), (Z, b)]
-ASSERTS = [F('p', X), F('p', F('f', Y)), F('p', ('v', ('_', 1))), F('p', F('g', X, Y))]
+ASSERTS = [F('p', X), F('p', F('f', Y)), F('p', ('v', ('_', 1))), F('p', F('g', X, Y)), F('p', F('g', Y, Y))]
 CONTS = ['true', 'use', 'fail']
-USES = ['pa', 'pb', 'pfb', 'pgab', 'twice', 'double']
+USES = ['pa', 'pb', 'pfb', 'pgab', 'pgaa', 'twice', 'double']
 UCLAUSE = (F('u', V('A'), V('B')), conj(call(F('p', V('A'))), call(F('p', V('B'))), call(F('=', V('A'), a)), call(F('=', V('B'), b))))
 
 
@@ -51,7 +51,9 @@ def sequences(kmax):
 def use_sequences():
     out = [()]
     out += [(u,) for u in USES]
-    out += [(u1, u2) for u1 in USES for u2 in USES]
+    # every use followed by each of three "probing" uses (a ground call, the clause using the fact
+    # twice, two suspended enumerations)
+    out += [(u1, u2) for u1 in USES for u2 in ('pa', 'twice', 'double')]
     return out
 
 
@@ -69,8 +71,8 @@ def do_use(w, use, is_ref):
     """one later use of the stored facts; -> observation"""
     qa, qb = V('Qa'), V('Qb')
     w.vars = {}
-    if use in ('pa', 'pb', 'pfb', 'pgab'):
-        goal = {'pa': F('p', a), 'pb': F('p', b), 'pfb': F('p', F('f', b)), 'pgab': F('p', F('g', a, b))}[use]
+    if use in ('pa', 'pb', 'pfb', 'pgab', 'pgaa'):
+        goal = {'pa': F('p', a), 'pb': F('p', b), 'pfb': F('p', F('f', b)), 'pgab': F('p', F('g', a, b)), 'pgaa': F('p', F('g', a, a))}[use]
         h = w.start(goal)
         n = 0
         while w.step(h) and n < 30:
